@@ -1,0 +1,23 @@
+//go:build verif
+
+package blowfish
+
+// Contracts for govc (/verif). Comments only. Trusted interface of the Blowfish primitives as used by
+// bcrypt_pbkdf: the cipher itself (32-bit operations, S-boxes) is not interpreted.
+
+//@ func NewSaltedCipher
+//@ trusted
+//@ fresh result0
+//@ ensures iff(result1 == nil, len(key) >= 1) && iff(result0 != nil, result1 == nil)
+
+//@ func ExpandKey
+//@ trusted
+//@ note expensive key schedule step: writes only *c; reads key cyclically (needs a non-empty key)
+//@ nonnil c
+//@ may_panic_when len(key) == 0
+//@ modifies *c
+
+//@ func (*Cipher).Encrypt
+//@ trusted
+//@ may_panic_when len(src) < 8 || len(dst) < 8
+//@ modifies dst[0:8]
